@@ -76,6 +76,87 @@ theorem send_spec (r : Run) (q : Req) :
     subst hy
     exact m1
 
+/-! ### the AS exchange -/
+
+theorem send_sent (r : Run) (q : Req) : (send r q).1.sent = r.sent ++ [q] := by
+  unfold send; split <;> rfl
+
+theorem send_st (r : Run) (q : Req) : (send r q).1.st = r.st := by
+  unfold send; split <;> rfl
+
+/-- One AS exchange sends one request, or two: the second one only after KDC_ERR_PREAUTH_REQUIRED / FAILED,
+    and it always carries the encrypted timestamp. -/
+theorem asExchange_requests (r : Run) :
+    let q : Req := { kind := .as, realm := r.st.clientRealm, sname := [krbtgt, r.st.clientRealm], pa := r.st.assumePA }
+    (asExchange r).1.sent = r.sent ++ [q] ∨
+    (asExchange r).1.sent = r.sent ++ [q, { q with pa := true }] := by
+  intro q
+  unfold asExchange
+  simp only
+  generalize hs : send r q = s1
+  have h1 := send_sent r q
+  rw [hs] at h1
+  obtain ⟨r1, o1⟩ := s1
+  simp only at h1
+  cases o1 with
+  | none => left; simpa using h1
+  | some x =>
+    cases x with
+    | issued t => left; simpa using h1
+    | error code =>
+      simp only
+      split
+      · right
+        generalize hs2 : send { r1 with st := { r1.st with assumePA := true } } { q with pa := true } = s2
+        have h2 := send_sent { r1 with st := { r1.st with assumePA := true } } { q with pa := true }
+        rw [hs2] at h2
+        obtain ⟨r3, o3⟩ := s2
+        simp only at h2
+        have : r3.sent = r.sent ++ [q, { q with pa := true }] := by
+          rw [h2, h1]; simp
+        cases o3 with
+        | none => simpa using this
+        | some y => cases y <;> simpa using this
+      · left; simpa using h1
+
+/-- A ticket an AS exchange returns is the KDC's answer to one of the (at most two) AS requests of that
+    exchange, both for krbtgt of the client's own realm. -/
+theorem asExchange_ticket (r : Run) (t : Tkt) (h : (asExchange r).2 = some t) :
+    ∃ q : Req, (q, Reply.issued t) ∈ r.replies ∧ q.kind = .as ∧ q.realm = r.st.clientRealm ∧
+      q.sname = [krbtgt, r.st.clientRealm] := by
+  unfold asExchange at h
+  simp only at h
+  have sp := send_spec r { kind := .as, realm := r.st.clientRealm, sname := [krbtgt, r.st.clientRealm], pa := r.st.assumePA }
+  generalize hs : send _ _ = s1 at h sp
+  obtain ⟨_, _, m1, a1⟩ := sp
+  obtain ⟨r1, o1⟩ := s1
+  cases o1 with
+  | none => simp at h
+  | some x =>
+    cases x with
+    | issued t' =>
+      simp only [Option.some.injEq] at h
+      subst h
+      exact ⟨_, a1 _ rfl, rfl, rfl, rfl⟩
+    | error code =>
+      simp only at h
+      split at h
+      · have sp2 := send_spec { st := { clientRealm := r1.st.clientRealm, sessions := r1.st.sessions, cache := r1.st.cache, assumePA := true }, sent := r1.sent, replies := r1.replies }
+          { kind := .as, realm := r.st.clientRealm, sname := [krbtgt, r.st.clientRealm], pa := true }
+        generalize hs2 : send _ _ = s2 at h sp2
+        obtain ⟨_, _, _, a2⟩ := sp2
+        obtain ⟨r3, o3⟩ := s2
+        cases o3 with
+        | none => simp at h
+        | some y =>
+          cases y with
+          | issued t' =>
+            simp only [Option.some.injEq] at h
+            subst h
+            exact ⟨_, m1 _ (a2 _ rfl), rfl, rfl, rfl⟩
+          | error c => simp at h
+      · simp at h
+
 /-- One TGS exchange, referrals included: it sends between one and `fuel` requests, every one of them
     for the name that was asked for, and a ticket it returns is the KDC's answer to one of them. -/
 theorem tgsExchange_spec (fuel : Nat) (r : Run) (now : Int) (sname : Name) (kdc : Bytes) (tgt : Tkt) (renewal : Bool) :
